@@ -87,8 +87,14 @@ func cmdCheck(args []string) int {
 	binPlain := fs.String("bin-plain", "", "")
 	binRace := fs.String("bin-race", "", "")
 	_ = fs.Parse(args)
-	if t := os.Getenv("VERIF_TIER"); t != "" && *replay == "" {
-		*tier = t
+	tierGiven := false
+	fs.Visit(func(f *flag.Flag) {
+		if f.Name == "tier" {
+			tierGiven = true
+		}
+	})
+	if t := os.Getenv("VERIF_TIER"); t != "" && *replay == "" && !tierGiven {
+		*tier = t // the environment decides only when the command line does not
 	}
 	if *tier != "quick" && *tier != "thorough" {
 		fmt.Fprintln(os.Stderr, "tier must be quick or thorough")
